@@ -630,3 +630,121 @@ C14_ALL = [C14_SCREEN_SIZE, C14_VIEW_INIT] + C14_VIEW_ATTRS + [
     C14_VIEW_STE, C14_VIEW_SIZE, C14_VIEW_SUBSET, C14_VIEW_INVERT, C14_VIEW_COMBINE, C14_VIEW_CONCAT, C14_TO_SCREEN,
     C14_SCREEN_SUBSET, C14_SUBSET_UNOBSERVED, C14_SUBSET_OBSERVED, C14_UNIQUE_PLATE_IDS, C14_GET_PLATE, C14_PLATES]
 ALL += C14_ALL
+
+# ---- C12 / C03: the reveal lifecycle (vocabulary: end of Model/Reveal.v) ----
+# A Screen object is Screen.screen; its array attributes are the columns of its rows (one entry per experiment).
+# Trusted per entry: one attribute read / one numpy call each.
+_SCREEN_ATTRS = [
+    ("screen.treatment_names", "col_tnames screen'", "names2d"),
+    ("screen.treatment_doses", "col_tdoses screen'", "doses2d"),
+    ("screen.observations", "col_obs screen'", "list Z"),                # float64 bit patterns
+    ("screen.sample_names", "col_samples screen'", "list name"),
+    ("screen.plate_names", "col_plates screen'", "list name"),
+    ("screen.control_treatment_name", "s_ctrl screen'", "name"),
+    ("screen.observation_mask", "col_mask screen'", "list bool"),
+    ("screen.treatment_mapping", "attr_tmap screen'", "tmap_t"),        # (mapping, its id array has an integer dtype = true)
+    ("screen.sample_mapping", "attr_smap screen'", "smap_t"),
+    ("screen.plate_ids", "s_pids screen'", "list Z"),
+    ("screen.size", "screen_size screen'", "Z"),
+]
+_NUMPY = [
+    ("np.isin(__a, __l)", "np_isin {a} {l}", "list bool", {"a": "list Z", "l": "list Z"}),
+    ("__a[__m]", "select {m} {a}", "list Z", {"a": "list Z", "m": "list bool"}),          # boolean-mask indexing
+    ("__x == 0", "np_eq_zero {x}", "list bool", {"x": "list Z"}),                           # elementwise, on floats
+    ("np.isnan(__x)", "np_isnan {x}", "list bool", {"x": "list Z"}),
+    ("np.all(__b)", "np_all {b}", "bool", {"b": "list bool"}),
+    ("np.any(__b)", "np_any {b}", "bool", {"b": "list bool"}),
+    ("__a | __b", "np_or {a} {b}", "list bool", {"a": "list bool", "b": "list bool"}),
+    ("np.zeros(__n, dtype=bool)", "np_full false {n}", "list bool", {"n": "Z"}),
+    ("np.ones(__n, dtype=bool)", "np_full true {n}", "list bool", {"n": "Z"}),
+]
+# Screen(...): the model's constructor applied to the keyword arguments THE CALL SITE passes (py2gal kwcalls); a parameter
+# that is not passed takes the default of Screen.__init__'s signature (None; control_treatment_name: "")
+_SCREEN_CALL = {"Screen": (
+    "!py_screen {treatment_names} {treatment_doses} {sample_names} {plate_names} {observations} {observation_mask} "
+    "{control_treatment_name} {treatment_mapping} {sample_mapping}", "screen",
+    [("treatment_names", "names2d", None), ("treatment_doses", "doses2d", None),
+     ("sample_names", "list name", None), ("plate_names", "list name", None),
+     ("observations", "opt list Z", "None"), ("observation_mask", "opt list bool", "None"),
+     ("control_treatment_name", "opt name", "None"),
+     ("treatment_mapping", "opt tmap_t", "None"), ("sample_mapping", "opt smap_t", "None")])}
+_C12 = dict(file="src/batchie/retrospective.py", out="SrcReveal.v", imports="Model.Encode Model.Screen Model.Reveal",
+            prims=_SCREEN_ATTRS + _NUMPY, kwcalls=_SCREEN_CALL)
+
+C12_REVEAL = dict(
+    _C12, func="reveal_plates", name="src_reveal_plates", pyparams=["screen", "plate_ids"],
+    params=[("screen", "screen"), ("plate_ids", "list Z")], returns="screen",
+    vars={"reveal_mask": "list bool", "revealed_values": "list Z"},
+    raises=[("All revealed observations were 0", 8), ("NaN found in revealed observations", 9)],
+)
+C12_MASK = dict(
+    _C12, func="mask_screen", name="src_mask_screen", pyparams=["screen"],
+    params=[("screen", "screen")], returns="screen", vars={},
+)
+C12_UNMASK = dict(
+    _C12, func="unmask_screen", name="src_unmask_screen", pyparams=["screen"],
+    params=[("screen", "screen")], returns="screen", vars={},
+)
+
+ALL += [C12_REVEAL, C12_MASK, C12_UNMASK]
+
+# Screen.set_observed: `self` is the pair of the two arrays the method writes (no other attribute is assigned)
+C12_SET_OBSERVED = dict(
+    file="src/batchie/data.py", cls="Screen", func="set_observed", out="SrcReveal.v",
+    imports="Model.Encode Model.Screen Model.Reveal", name="src_set_observed",
+    pyparams=["self", "selection_mask", "observations"],
+    attr_vars={"self._observations": "self_observations", "self._observation_mask": "self_observation_mask"},
+    params=[("self_observations", "list Z"), ("self_observation_mask", "list bool"),
+            ("selection_mask", "list bool"), ("observations", "list Z")],
+    returns="(list Z * list bool)", vars={},
+    # the dtype guards: a `list bool` IS a bool array, a list of float64 bit patterns IS a float array
+    prims=[("np.issubdtype(selection_mask.dtype, bool)", "true", "bool"),
+           ("np.issubdtype(observations.dtype, FloatingPointType)", "true", "bool")],
+    raises=[("selection_mask must be bool", 12), ("observations must be float", 13)],
+    mask_store={"array": "np_mask_assign {a} {m} {v}", "scalar": "np_mask_fill {a} {m} {v}"},
+    implicit_return="({self_observations}, {self_observation_mask})",     # the two arrays when the method ends
+)
+ALL += [C12_SET_OBSERVED]
+
+# Screen.__init__: the two runs of top-level statements that decide observations / observation_mask (py2gal body_slice).
+# The rest of __init__ (shape and dtype checks of the other arrays, the id encoders = C01, the attribute stores) is not
+# translated here.  pydefaults: the defaults _SCREEN_CALL gives to arguments a call site does not pass.
+_INIT = dict(
+    file="src/batchie/data.py", cls="Screen", func="__init__", out="SrcReveal.v", imports="Model.Encode Model.Screen Model.Reveal",
+    pyparams=["self", "treatment_names", "treatment_doses", "sample_names", "plate_names", "observations", "observation_mask",
+              "control_treatment_name", "treatment_mapping", "sample_mapping"],
+    pydefaults=["None", "None", "''", "None", "None"],
+)
+C12_INIT_OBS = dict(
+    _INIT, name="src_init_observations",
+    body_slice=("if observations is None and observation_mask is not None:", "if observations is not None:"),
+    live_vars=["n_experiment_dimension"],                      # = treatment_names.shape[0]
+    params=[("observations", "opt list Z"), ("observation_mask", "opt list bool"), ("n_experiment_dimension", "Z")],
+    returns="(list Z * list bool)",
+    vars={"observations": "list Z", "observation_mask": "list bool"},     # what they are once defaulted
+    narrow_none=True,
+    prims=[("__a.shape != (__n,)", "negb (Z.of_nat (length {a}) =? {n})", "bool", {"a": "list Z", "n": "Z"}),
+           ("np.issubdtype(observations.dtype, FloatingPointType)", "true", "bool"),      # bit patterns ARE floats
+           ("np.ones((__n,), dtype=bool)", "np_full true {n}", "list bool", {"n": "Z"}),
+           ("np.zeros((__n,), dtype=bool)", "np_full false {n}", "list bool", {"n": "Z"}),
+           ("np.zeros((__n,), dtype=FloatingPointType)", "np_full 0 {n}", "list Z", {"n": "Z"})],     # +0.0 has bit pattern 0
+    raises=[("observation_mask cannot be provided without observations", 7),
+            ("Expected observations to have shape", 14), ("observations must be floats", 13)],
+    implicit_return="({observations}, {observation_mask})",
+)
+C12_INIT_PLATES = dict(
+    _INIT, name="src_init_plate_check",
+    body_slice=("plate_names_unique = np.unique(plate_names)", "for plate_name in plate_names_unique:"),
+    params=[("plate_names", "list name"), ("observation_mask", "list bool")],      # the mask as the first run left it
+    returns="unit",
+    vars={"plate_names_unique": "list name", "plate_name": "name", "plate_mask": "list bool"},
+    prims=[("np.unique(__a)", "sort_uniq name_cmp {a}", "list name", {"a": "list name"}),       # sorted, duplicate-free
+           ("plate_names == plate_name", "np_eq_name plate_names' plate_name'", "list bool"),
+           ("__a[0]", "!list_get {a} 0", "bool", {"a": "list bool"}),                            # IndexError on an empty array
+           ("__a[__m]", "select {m} {a}", "list bool", {"a": "list bool", "m": "list bool"}),
+           ("__a == __b", "np_eq_bool {a} {b}", "list bool", {"a": "list bool", "b": "bool"}),
+           ("np.all(__b)", "np_all {b}", "bool", {"b": "list bool"})],
+    raises=[("has a mixture of observed and not observed outcomes", 2)],
+    implicit_return="tt",
+)
+ALL += [C12_INIT_OBS, C12_INIT_PLATES]
